@@ -102,6 +102,42 @@ def r13_7(chk, facts):
         if bool(ra[nm]) == want: chk.ok('R13.7', site, None)
         else: chk.fail('R13.7', site, file, 57, 'is_right_associative(%s) is %s' % (nm, ra[nm]), None)
 
+def r13_9(chk, facts):
+    """Sibling agreement: max/min and max_by/min_by are mirror images."""
+    import re as _re
+    chk.rule('R13.9', 'extremum functions: max and min (max_by and min_by) have the same guarded effects once the single running comparison is '
+                      'mirrored (`>` in max*, `<` in min*): same type checks, same error returns, and the running best and its index are updated together', floor=2)
+    def summary(fn):
+        g = C.CFG(fn['body'])
+        out = set(); ops = set()
+        def render(a, lab):
+            t = A.text(a)
+            c = G.comparison(a)
+            if c and c[0] in ('<', '>', '<=', '>=') and not any(A.callee_name(y) in ('size', 'length') for y in A.calls_in(a)):
+                ops.add(c[0]); t = 'RUNNING(%s, %s)' % (A.text(c[1]), A.text(c[2]))
+            return ('' if lab else '!') + t
+        for nd in g.rpo:
+            if nd.kind not in ('stmt', 'return') or not isinstance(nd.ast, dict): continue
+            gs = tuple(sorted(render(a, lab) for a, lab, e in g.guards(nd) if lab in (True, False)))
+            out.add((gs, ('return ' + A.text(nd.ast.get('val'))) if nd.kind == 'return' else A.text(nd.ast)))
+        return out, ops
+    for a, b in (('max_function', 'min_function'), ('max_by_function', 'min_by_function')):
+        fa = [f for f in facts.functions if f['n'] == 'evaluate' and A.strip_targs(f.get('cls') or '').endswith('::' + a) and f.get('body') is not None and not f.get('dep')]
+        fb = [f for f in facts.functions if f['n'] == 'evaluate' and A.strip_targs(f.get('cls') or '').endswith('::' + b) and f.get('body') is not None and not f.get('dep')]
+        chk.require(fa and fb, 'R13.9: %s / %s not found' % (a, b))
+        chk.analysed(fa[0]); chk.analysed(fb[0])
+        sa, oa = summary(fa[0]); sb, ob = summary(fb[0])
+        site = 'include/jsoncons_ext/jmespath/jmespath.hpp %s vs %s' % (a, b)
+        problems = []
+        if oa != {'>'}: problems.append('%s compares with %s (expected a single `>`)' % (a, sorted(oa)))
+        if ob != {'<'}: problems.append('%s compares with %s (expected a single `<`)' % (b, sorted(ob)))
+        if sa != sb:
+            da = sorted(sa - sb); db = sorted(sb - sa)
+            def show(x): return '%s%s' % (x[1][:50], (' under ' + ' & '.join(g2[:40] for g2 in x[0][-2:])) if x[0] else '')
+            problems.append('they differ: only %s: [%s]; only %s: [%s]' % (a, '; '.join(show(x) for x in da[:3]), b, '; '.join(show(x) for x in db[:3])))
+        if not problems: chk.ok('R13.9', site, {'effects': len(sa)})
+        else: chk.fail('R13.9', site, fa[0]['file'], fa[0]['l'], '; '.join(problems), None, fa[0]['q'])
+
 def run(chk, tier, only_rule=None):
     chk.explanation = EXPLANATION
     chk.not_decided = NOT_DECIDED
@@ -290,9 +326,11 @@ def run(chk, tier, only_rule=None):
     from . import c05
     r13_6(chk, facts)
     r13_7(chk, facts)
+    r13_9(chk, facts)
     c05.r05_5(chk, tier)
     from . import c12
     c12.r12_3(chk, tier, units=('jmespath',))
     c12.r12_5(chk, tier, units=('jmespath',))
+    c12.r12_8(chk, tier)
     c05.r05_6(chk, tier, units=['jmespath'], floor=70)
     c05.r05_7(chk, tier, units=['jmespath'], floor=90)
